@@ -174,11 +174,12 @@ CHECKS = {
 GEN_KEYMAP = lambda k: -1 if k < 0 else min(15, 3 * k)
 
 
-def gen_scripts(seed, per_worker, workers, max_ops, pick_per_tag, timeout, repair=False, require_tag=None, big=False):
+def gen_scripts(seed, per_worker, workers, max_ops, pick_per_tag, timeout, repair=False, require_tag=None, big=False, family=False):
     d = c.scratch('gen')
     outdir = os.path.join(d, 'out'); os.makedirs(outdir)
-    cfg = open(os.path.join(c.SPEC, 'LsmGen.cfg')).read()
+    cfg = open(os.path.join(c.SPEC, 'LsmGenF.cfg' if family else 'LsmGen.cfg')).read()
     cfg = cfg.replace('OutDir = "/tmp/lsmgen_out"', 'OutDir = "%s"' % outdir).replace('MaxOps = 14', 'MaxOps = %d' % max_ops)
+    if family: max_ops = 25
     if big:
         cfg = cfg.replace('WithBig = FALSE', 'WithBig = TRUE')
     if repair:
@@ -245,6 +246,17 @@ def gen_layer(prop, tier, seed, out, mc):
             stats['big'] = {k: v for k, v in stats_b.items() if k in ('generated', 'chosen', 'tag_counts')}
             # scripts are written into d; the big run's scratch is not needed any more
             c.rmtree(d_b)
+    if chosen is not None:
+        # third generation: the scenario family in which one user key is split over two files of a level and ranged
+        # compactions are chunked, expanded and extended by boundary files
+        chosen_f, stats_f, d_f = gen_scripts(seed + 2, 45 if quick else 1200, 8, 24, 4 if quick else 50, 200 if quick else 1500, family=True)
+        if chosen_f is None:
+            chosen, stats = None, stats_f
+        else:
+            for rec in chosen_f: rec['big'] = True
+            chosen = chosen + chosen_f
+            stats['family'] = {k: v for k, v in stats_f.items() if k in ('generated', 'chosen', 'tag_counts')}
+            c.rmtree(d_f)
     if chosen is None:
         r = stats
         rd = c.replay_dir(prop, 'gen')
